@@ -2105,7 +2105,8 @@ parseHandshake:
         SERVER_HELLO_DONE.
  */
         if ((hsType == SSL_HS_CERTIFICATE_REQUEST) &&
-            (ssl->hsState == SSL_HS_SERVER_HELLO_DONE))
+            (ssl->hsState == SSL_HS_SERVER_HELLO_DONE) &&
+            (ssl->decState != SSL_HS_CERTIFICATE_REQUEST))
         {
 /*
             This is where the client is first aware of requested client
